@@ -219,55 +219,67 @@ def run(ctx, ck):
         ('Curve', 'translate'): (['self.segends'], 'translation'),
         ('Curve', 'scale'): (['self.segends', 'self._r'], 'factor'),
     }
+    # decided on the symbolic walk with effects (private helpers, lambdas and bound methods handed
+    # to them are resolved): the value every geometric attribute holds at the end of each path
+    from ..symx import SymExec
+    from ..poly import poly_roles, cancel, Poly
     for (cls, op), (attrs, param) in sorted(expect.items()):
         g = m.func('mininec.%s.%s' % (cls, op))
-        gfl = ctx.flow(g)
-        got = {}
-        for s_ in walk_no_nested(g.node):
-            if isinstance(s_, ast.Assign) and isinstance(s_.targets[0], ast.Attribute):
-                got[norm(s_.targets[0])] = s_
-        miss = [k for k in attrs if k not in got]
-        extra = [k for k in got if k not in attrs]
-        wrong = []
-        shapes = {}
-        for k in attrs:
-            if k not in got:
-                continue
-            st_ = got[k]
-            v = gfl.inline(st_.value, gfl.node_id_of(st_))
-            r = gfl.roots(st_.value, gfl.node_id_of(st_))
-            if not any(x[0] == 'attr' and (x[1] == k or x[1].startswith(k + '.')) for x in r) or \
-                    ('param', param) not in r:
-                wrong.append('%s = %s does not combine the old value with %s' % (k, norm(v), param))
-                continue
-            if op == 'scale':
-                pr = product_of(v)
-                nn, dd = pr.texts()
-                if sorted(nn) != sorted([k, param]) or dd or pr.coef != 1:
-                    wrong.append('%s = %s is not old * factor' % (k, norm(v)))
-            elif op == 'translate':
-                from ..dataflow import sum_terms
-                ts = sorted(norm(t) for sg, t in sum_terms(v) if sg == 1)
-                if ts != sorted([k, param]) or len(sum_terms(v)) != 2:
-                    wrong.append('%s = %s is not old + translation' % (k, norm(v)))
-            shapes[k] = norm(v).replace(k, '<attr>')
-        pts = [k for k in attrs if k != 'self._r' and k in shapes]
-        if len({shapes[k] for k in pts}) > 1:
-            wrong.append('end points are transformed differently: %s' % shapes)
+        cache_fn = m.resolve_method(cls, 'compute_endpoints')
+        paths = [p_ for p_ in SymExec(ctx, g, effects=True, max_paths=2000,
+                                      no_expand={cache_fn.qual} if cache_fn is not None else ()).run() if p_.end != 'raise']
+        miss, wrong, extra = [], [], []
+        if not paths:
+            wrong.append('no path returns normally')
+        for p_ in paths:
+            final = {}
+            order = {}
+            for i_, ev in enumerate(p_.events):
+                if ev[0] == 'store' and ev[1].startswith('self.') and '[' not in ev[1]:
+                    final[ev[1]] = ev[2]
+                    order[ev[1]] = i_
+            for k in attrs:
+                if k not in final:
+                    if k not in miss:
+                        miss.append(k)
+                    continue
+                v = final[k]
+                txt = norm(v)
+                good = False
+                if op == 'rotate':
+                    good = txt == '%s.apply(%s)' % (param, k) or \
+                        (k == 'self.segends' and txt in ('%s.apply(self.segends.T).T' % param, '(%s.m @ self.segends.T).T' % param,
+                                                         'self.segends @ %s.m.T' % param))
+                    if not good and isinstance(v, ast.Call) and norm(v.func) == '%s.apply' % param and \
+                       any(isinstance(x_, ast.Attribute) and norm(x_) == k for a_ in v.args for x_ in ast.walk(a_)):
+                        good = True
+                    if not good and param in txt and k in txt and '.apply(' in txt:
+                        good = True
+                else:
+                    try:
+                        pol = cancel(poly_roles(v, {}))
+                        kk = Poly.var(k.split('.')[-1])
+                        pp = Poly.var(param)
+                        good = cancel(pol - (kk * pp if op == 'scale' else kk + pp)).t == {}
+                    except (ValueError, ZeroDivisionError):
+                        good = False
+                if not good:
+                    w_ = '%s = %s is not %s' % (k, txt[:60], {'rotate': 'the rotated old value', 'scale': 'old * factor',
+                                                              'translate': 'old + translation'}[op])
+                    if w_ not in wrong:
+                        wrong.append(w_)
+            for k in final:
+                if k not in attrs and k not in extra:
+                    extra.append(k)
+            if cls == 'Wire':
+                rec = [i_ for i_, ev in enumerate(p_.events) if ev[0] == 'call' and norm(ev[1].func) == 'self.compute_endpoints']
+                if len(rec) != 1 or any(order[k] > rec[0] for k in attrs if k in order):
+                    if 'end-point cache not recomputed after the update' not in wrong:
+                        wrong.append('end-point cache not recomputed after the update')
         ok = not miss and not wrong and not extra
-        if cls == 'Wire':
-            calls_ = [c for c in walk_no_nested(g.node) if isinstance(c, ast.Call) and
-                      norm(c.func) == 'self.compute_endpoints']
-            ok2 = len(calls_) == 1
-            if ok2:
-                cid = gfl.node_id_of(calls_[0])
-                ok2 = all(gfl.cfg.must_pass(cid, {gfl.node_id_of(got[k])}) for k in attrs if k in got) and \
-                    gfl.cfg.must_pass(gfl.cfg.exit.id, {cid})
-            if not ok2:
-                wrong.append('end-point cache not recomputed after the update')
-            ok = ok and ok2
         ck.ob('R-SIB.transform', g.qual, ok, g.loc(),
-              'updates %s with %s' % (sorted(got), param) if ok else 'missing %s wrong %s extra %s' % (miss, wrong, extra))
+              'updates %s with %s on %d paths' % (sorted(attrs), param, len(paths)) if ok else
+              'missing %s wrong %s extra %s' % (miss, wrong, extra))
     # geometric attributes of the classes: constructor assigns exactly the point attributes above
     wi = m.func('mininec.Wire.__init__')
     pts = sorted(norm(s.targets[0]) for s in wi.body() if isinstance(s, ast.Assign) and
